@@ -140,10 +140,11 @@ class Check:
         wall = time.time() - self.t0
         if write_evidence:
             self._write_evidence(seed, wall, viol, known_hits)
-        if self.errors:
-            return 2
+        # a definite violation takes precedence: exit 1 as the contract says; analysis problems alone exit 2
         if viol:
             return 1
+        if self.errors:
+            return 2
         if not self.quiet:
             print(f'OK {self.prop}: {len(self.obligations)} obligations, '
                   f'{len(self.obligations) - len(failing)} discharged, {len(known_hits)} known finding(s), {wall:.2f}s')
